@@ -142,7 +142,7 @@ def run_case(case):
 
         for _c in range(case['configs']):
             avx = case.get('avx512', False)
-            choices = ['whfast512'] if avx else ['leapfrog', 'whfast', 'whfast', 'whfast', 'saba', 'saba', 'eos', 'eos', 'janus', 'mercurius', 'trace', 'traceperi', 'ias15', 'ias15fixed', 'bs', 'ode']
+            choices = ['whfast512'] if avx else ['leapfrog', 'whfast', 'whfast', 'whfast', 'saba', 'saba', 'eos', 'eos', 'janus', 'mercurius', 'trace', 'traceperi', 'sei', 'ias15', 'ias15fixed', 'bs', 'ode']
             integ = rr.choice(choices)
             if avx and (tp or G != 1.0 or N > 9 or direction < 0):
                 break              # WHFast512: G=1, no test particles, forward only (documented)
@@ -173,6 +173,50 @@ def run_case(case):
                 if gt(res[-1][1], 10 * res[0][1] + 1e-12):
                     add('converge:error-grows-when-tolerance-tightened:%s' % integ, '%s: errors %r' % (desc0, [(t_, '%.2e' % e_) for t_, e_, _o in res]))
                 cells.add(json.dumps([integ, 'tolerance']))
+                continue
+            if integ == 'sei':
+                # SEI solves the epicyclic (Hill) motion exactly: without gravity the numerical solution must equal the closed-form
+                # solution of  x'' = 2 O y' + 3 O^2 x,  y'' = -2 O x',  z'' = -Oz^2 z  for ANY step size, to rounding
+                counters['sei_runs'] = counters.get('sei_runs', 0) + 1
+                OM = 10 ** rr.uniform(-2, 1)
+                OMZ = OM * rr.choice([1.0, 1.0, rr.uniform(0.5, 3.0)])
+                s3 = rebound.Simulation()
+                s3.integrator = 'sei'
+                s3.gravity = 'none'
+                s3.ri_sei.OMEGA = OM
+                s3.ri_sei.OMEGAZ = OMZ
+                ics = []
+                for _p in range(rr.randint(1, 5)):
+                    ic = [rr.uniform(-5, 5), rr.uniform(-5, 5), rr.uniform(-1, 1), rr.uniform(-3, 3) * OM, rr.uniform(-3, 3) * OM, rr.uniform(-1, 1) * OMZ]
+                    ics.append(ic)
+                    s3.add(m=0.0, x=ic[0], y=ic[1], z=ic[2], vx=ic[3], vy=ic[4], vz=ic[5])
+                ns3 = rr.choice([1, 7, 100, 1000])
+                dt3 = direction * rr.choice([1e-3, 0.1, 0.5, 2.0, 7.3]) / OM          # steps of many epicyclic periods are as exact as tiny ones
+                s3.dt = dt3
+                s3.steps(ns3)
+                tt = s3.t
+                worst = 0.0
+                for ic, p in zip(ics, s3.particles):
+                    x0, y0_, z0_, vx0, vy0, vz0 = ic
+                    C = vy0 + 2 * OM * x0
+                    a_ = x0 - 2 * C / OM
+                    b_ = vx0 / OM
+                    cs, sn = math.cos(OM * tt), math.sin(OM * tt)
+                    xe = 2 * C / OM + a_ * cs + b_ * sn
+                    ye = y0_ - 3 * C * tt - 2 * a_ * sn + 2 * b_ * (cs - 1)
+                    vxe = OM * (-a_ * sn + b_ * cs)
+                    vye = C - 2 * OM * xe
+                    ze = z0_ * math.cos(OMZ * tt) + vz0 / OMZ * math.sin(OMZ * tt)
+                    vze = -z0_ * OMZ * math.sin(OMZ * tt) + vz0 * math.cos(OMZ * tt)
+                    sc3 = abs(x0) + abs(y0_) + abs(C / OM) + abs(b_) + abs(3 * C * tt) + abs(z0_) + abs(vz0 / OMZ)
+                    d3 = max(abs(p.x - xe), abs(p.y - ye), abs(p.z - ze), abs(p.vx - vxe) / OM, abs(p.vy - vye) / OM, abs(p.vz - vze) / OMZ) / sc3
+                    worst = max(worst, d3)
+                # rounding of ns3 rotations by O dt each: each step multiplies by a rotation known to ~1 ulp, the phase O t itself carries ns3 ulp
+                bound3 = 1024 * 2.2e-16 * (ns3 + 2) * (1 + abs(OM * dt3))
+                counters['max_sei_error_over_bound_x1000'] = max(counters.get('max_sei_error_over_bound_x1000', 0), int(1000 * worst / bound3))
+                if gt(worst, bound3):
+                    add('converge:sei-not-exact-for-epicycles', 'OMEGA=%g OMEGAZ=%g dt=%g (%.2f epicyclic periods) %d steps: deviation %.3e of the orbit size, bound %.1e' % (OM, OMZ, dt3, abs(OM * dt3) / 6.283, ns3, worst, bound3))
+                cells.add(json.dumps(['sei', ns3, direction]))
                 continue
             if integ == 'traceperi':
                 # TRACE with an eccentric inner planet and steps that are a sizeable fraction of its period: the pericentre switch
